@@ -926,6 +926,54 @@ impl ShapeRun for LockedElsewhereRunner {
     }
 }
 
+/// Mutex / RwLock that were poisoned (a thread panicked holding the guard).
+/// The unchanged crate unwraps the lock result, i.e. it panics: that is
+/// tolerated (counted). But an estimate that *is* returned has to be right.
+pub struct PoisonedRunner;
+
+impl ShapeRun for PoisonedRunner {
+    fn name(&self) -> String { "locks-poisoned".into() }
+
+    fn run(&self, bytes: &[u8], stats: &mut MemStats) -> Vec<MemFailure> {
+        let mut fails = Vec::new();
+        let mut u = Unstructured::new(bytes);
+        let inner = String::build(&mut u, 0);
+        let want = inner.capacity();
+        let which = int(&mut u, 0, 2);
+        stats.checks += 1;
+        let poison = |f: &mut dyn FnMut()| { let _ = std::panic::catch_unwind(std::panic::AssertUnwindSafe(|| f())); };
+        let (name, got): (&str, Option<usize>) = match which {
+            0 => {
+                let m = Mutex::new(inner);
+                poison(&mut || { let _g = m.lock().unwrap(); panic!("{}", crate::tracked::INJECTED); });
+                ("poisoned Mutex<String>", std::panic::catch_unwind(std::panic::AssertUnwindSafe(|| m.heap_size())).ok())
+            },
+            1 => {
+                let m = RwLock::new(inner);
+                poison(&mut || { let _g = m.write().unwrap(); panic!("{}", crate::tracked::INJECTED); });
+                ("poisoned RwLock<String>", std::panic::catch_unwind(std::panic::AssertUnwindSafe(|| m.heap_size())).ok())
+            },
+            _ => {
+                let m = Box::new(Mutex::new(inner));
+                poison(&mut || { let _g = m.lock().unwrap(); panic!("{}", crate::tracked::INJECTED); });
+                ("Box<poisoned Mutex<String>>", std::panic::catch_unwind(std::panic::AssertUnwindSafe(|| m.heap_size())).ok()
+                    .map(|h| h - std::mem::size_of::<Mutex<String>>()))
+            },
+        };
+        match got {
+            None => stats.discarded += 0,
+            Some(g) if g != want => fails.push(MemFailure { tags: vec!["C08", "C09"], sig: format!("lock-poisoned:{}", which),
+                msg: format!("{}: heap_size {} but the protected value holds {}", name, g, want) }),
+            Some(_) => { },
+        }
+        if want > 0 {
+            stats.nontrivial8.push(format!("poisoned|{}", which));
+            stats.nontrivial9.push(format!("poisoned|{}", which));
+        }
+        fails
+    }
+}
+
 macro_rules! menu {
     ($($t:ty),* $(,)?) => {
         vec![$(Box::new(Runner::<$t>(PhantomData)) as Box<dyn ShapeRun + Send>),*]
@@ -1012,6 +1060,7 @@ pub fn menu_send() -> Vec<Box<dyn ShapeRun + Send>> {
     ];
     m.push(Box::new(UnsizedRunner));
     m.push(Box::new(LockedElsewhereRunner));
+    m.push(Box::new(PoisonedRunner));
     m
 }
 
